@@ -28,6 +28,7 @@ def optHex : Option Bytes → String
   | some b => toHex b
 
 def parseInt (s : String) : Option Int := s.toInt?
+def parseNat (s : String) : Option Nat := s.toNat?
 
 def okHex : Option Bytes → String
   | none => "err"
